@@ -40,6 +40,19 @@ func init() {
 					panic(err)
 				}
 			}
+			if x.j.Str("variant", "iter") == "delete-deep" {
+				// the last level holds more than BaseLevelSize of keys that overlap nothing (inline
+				// values), so the base level is the one ABOVE it: a, b, c and later the delete marker of
+				// a are compacted into a level that is not the last one
+				for i := 0; i < 160; i++ {
+					put(fmt.Sprintf("z%03d", i), string(val("Z", 60)))
+				}
+				lsmFlush(x.db)
+				runOnceAs(x.db, 0)
+				if t := x.db.lc.levelTargets(); t.baseLevel == len(x.db.lc.levels)-1 {
+					panic(fmt.Sprintf("c15gc delete-deep: the base level is still the last level (last level %d bytes)", x.db.lc.lastLevel().getTotalSize()))
+				}
+			}
 			put("a", st.origA)
 			put("b", string(val("B-orig-", 200)))
 			put("c", "inline")
